@@ -105,6 +105,13 @@ def run_shard(desc):
         for _ in range(arg):
             if rnd.random() < 0.4:
                 inputs.append(c01.soup(rnd))
+            elif rnd.random() < 0.05:
+                # long rules: many statements / one long chain, so that names, calls, strings and operators also occur far into the input
+                if rnd.random() < 0.5:
+                    inputs.append(rnd.choice([" ; ", ";", " ;\n"]).join(ref.join_tokens(ref.Renderer(rnd=rnd).tokens(tg.program(d=2)), rnd=rnd, compact=rnd.random()) for _ in range(rnd.choice([10, 20, 40, 80, 200]))))
+                else:
+                    k = rnd.choice([30, 63, 64, 65, 66, 100, 128, 129, 257, 600])
+                    inputs.append(rnd.choice([" + ", "+", " in ", " , "]).join(rnd.choice(["v%d" % i, "g%d(%d)" % (i, i), "'s%d'" % i, "%d.5" % i, "é%d" % i, "h%d (x)" % i]) for i in range(k)) + " + f(7) in g (8)")
             elif rnd.random() < 0.03:
                 inputs.append("\ufeff" + ref.join_tokens(ref.Renderer(rnd=rnd).tokens(tg.program(d=2))))
             else:
